@@ -162,7 +162,7 @@ func scenarios() []scen {
 
 func runRefusals(c *vf.Ctx, g *gitx.Git, bases []*wtlab.Base, only string) {
 	sc := scenarios()
-	per := c.N(4, 40)
+	per := c.N(4, 25)
 	var cases []caseT
 	for si, s := range sc {
 		if only != "" && !strings.Contains(s.label+":"+s.cause, only) {
@@ -188,9 +188,9 @@ func runRefusals(c *vf.Ctx, g *gitx.Git, bases []*wtlab.Base, only string) {
 	}
 	vf.Parallel(len(cases), 8, func(i int) { runRefusalCase(c, g, bases, cases[i]) })
 	if only == "" {
-		c.Floor("refusal cases in which the call returned an error", c.Counter("refused_calls"), c.N(150, 1500))
+		c.Floor("refusal cases in which the call returned an error", c.Counter("refused_calls"), c.N(150, 900))
 		c.Floor("distinct (operation, cause) pairs refused", c.SeenCount("refused_scenarios"), 40)
-		c.Floor("refused calls that left the state unchanged", c.Counter("refused_unchanged"), c.N(80, 800))
+		c.Floor("refused calls that left the state unchanged", c.Counter("refused_unchanged"), c.N(80, 500))
 	}
 }
 
